@@ -104,6 +104,13 @@ def main(tier: str, seed: int) -> int:
     chk.cov["transitions"] += info["states"]
 
     common.boot()
+    # timed transitions while the node is power-cycled with TIMED start-up and shut-down (Software.tla's power is
+    # instantaneous; the timing of power is C12's): the transition tours of Lifecycle.tla's service and application facets,
+    # through PrimaiteGymEnv, validated against LifecycleTrace.tla (restart / install counted over the ticks the node is ON); run BEFORE this check's
+    # own recorders and its install-duration hook are put on the classes
+    from . import ext_lifecycle
+
+    ext_lifecycle.run_facets(chk, ("svc", "app"), tier, seed)
     rec = rs.Recorder()
     rec.install()
     holder: Dict[str, Any] = {"id": None}
